@@ -314,7 +314,12 @@ impl Ledger {
             }
         }
         for (a, _, n) in &d.supply {
-            self.supply.insert(a.clone(), *n);
+            // zero and absent are the same thing (a fresh decode never sees a zero -> zero write)
+            if *n == 0 {
+                self.supply.remove(a);
+            } else {
+                self.supply.insert(a.clone(), *n);
+            }
         }
     }
 
